@@ -61,14 +61,14 @@ BURNK == "BURN"
 Key(a) == IF a.t = "MAIN" THEN MAINK ELSE a.t \o "-" \o a.id
 IsBank(a) == a.t \in {"MOD", "BASE"}
 
-ZeroC == [d \in Denoms |-> 0]
-AddC(a, b) == [d \in Denoms |-> a[d] + b[d]]
-SubC(a, b) == [d \in Denoms |-> a[d] - b[d]]
+ZeroC == TLCEval([d \in Denoms |-> 0])
+AddC(a, b) == TLCEval([d \in Denoms |-> a[d] + b[d]])
+SubC(a, b) == TLCEval([d \in Denoms |-> a[d] - b[d]])
 IsZeroC(a) == \A d \in Denoms : a[d] = 0
-DecC(a) == [d \in Denoms |-> DecFromInt(a[d])]
-TruncC(a) == [d \in Denoms |-> TruncInt(a[d])]
-FracC(a) == [d \in Denoms |-> Frac(a[d])]
-MulTruncC(a, sh) == [d \in Denoms |-> DecMulTrunc(a[d], sh)]
+DecC(a) == TLCEval([d \in Denoms |-> DecFromInt(a[d])])
+TruncC(a) == TLCEval([d \in Denoms |-> TruncInt(a[d])])
+FracC(a) == TLCEval([d \in Denoms |-> Frac(a[d])])
+MulTruncC(a, sh) == TLCEval([d \in Denoms |-> DecMulTrunc(a[d], sh)])
 MulExactC(a, sh) == \A d \in Denoms : MulExact(a[d], sh)
 AnyGE1(a) == \E d \in Denoms : a[d] >= P
 
@@ -211,9 +211,9 @@ BankKeys == { Key(a) : a \in { x \in Accs : IsBank(x) } } \cup {MAINK}
 
 Init ==
   /\ cfg = NoCfg
-  /\ bal = [k \in BankKeys |-> ZeroC] /\ rem = [k \in Universe |-> ZeroC]
-  /\ entitled = [k \in Universe |-> ZeroC] /\ paid = [k \in Universe |-> ZeroC] /\ requeued = [k \in Universe |-> ZeroC]
-  /\ deposited = ZeroC
+  /\ bal = TLCEval([k \in BankKeys |-> ZeroC]) /\ rem = TLCEval([k \in Universe |-> ZeroC])
+  /\ entitled = TLCEval([k \in Universe |-> ZeroC]) /\ paid = TLCEval([k \in Universe |-> ZeroC]) /\ requeued = TLCEval([k \in Universe |-> ZeroC])
+  /\ deposited = TLCEval(ZeroC)
   /\ blocks = 0 /\ phase = "dep" /\ nupd = 0 /\ halted = FALSE /\ exact = TRUE
   /\ act = [name |-> "init"]
 
@@ -229,8 +229,8 @@ Configure(c) ==
 Deposit(v) ==
   /\ Configured /\ ~halted /\ phase = "dep" /\ blocks < MaxBlocks
   /\ DOMAIN v \subseteq (KeysOf(cfg) \cup {MAINK}) \cap BankKeys
-  /\ bal' = [k \in DOMAIN bal |-> IF k \in DOMAIN v THEN AddC(bal[k], v[k]) ELSE bal[k]]
-  /\ deposited' = AddC(deposited, SumSet(DOMAIN v, LAMBDA k : v[k]))
+  /\ bal' = TLCEval([k \in DOMAIN bal |-> IF k \in DOMAIN v THEN AddC(bal[k], v[k]) ELSE bal[k]])
+  /\ deposited' = TLCEval(AddC(deposited, SumSet(DOMAIN v, LAMBDA k : v[k])))
   /\ phase' = "blk"
   /\ act' = [name |-> "deposit", v |-> v]
   /\ UNCHANGED <<cfg, rem, blocks, nupd, entitled, paid, requeued, halted, exact>>
@@ -239,7 +239,8 @@ Block(F) ==
   /\ Configured /\ ~halted /\ phase = "blk"
   /\ F \subseteq FaultTargets(cfg)
   /\ LET r == RunBlock(cfg, F) IN
-       /\ bal' = r.bal /\ rem' = r.rem /\ entitled' = r.entitled /\ paid' = r.paid /\ requeued' = r.requeued
+       \* (TLCEval: TLC must hold fully evaluated function values in its state queue)
+       /\ bal' = TLCEval(r.bal) /\ rem' = TLCEval(r.rem) /\ entitled' = TLCEval(r.entitled) /\ paid' = TLCEval(r.paid) /\ requeued' = TLCEval(r.requeued)
        /\ exact' = (exact /\ r.exact)
        /\ act' = [name |-> "block", faults |-> F, events |-> r.events, inflows |-> r.inflows]
   /\ blocks' = blocks + 1 /\ phase' = "dep"
